@@ -86,7 +86,8 @@ PosAfterLenChange(o, newv) == IF ~IsStream(o.c) THEN -1 ELSE IF Len(newv) # Len(
 
 DoLen(o) == OkV(VSmall(Len(o.v)))
 DoBool(o) == OkV(VBool(Len(o.v) # 0))
-DoIter(o) == OkV(VBools(o.v))
+\* iteration yields s[0], s[1], ... so it follows the bit numbering mode like indexing does
+DoIter(o, lsb0) == OkV(VBools(Mir(lsb0, o.v)))
 
 DoGetItem(o, lsb0, i) ==
   IF IndexValid(Len(o.v), i) THEN OkV(VBool(GetIdx(Mir(lsb0, o.v), i) = 1))
@@ -112,6 +113,13 @@ DoInv(o) == IF Len(o.v) = 0 THEN Raises({"Error"}) ELSE OkV(VNew(o.c, NotB(o.v))
 BinB(opn, s, t) == CASE opn = "and" -> AndB(s, t) [] opn = "or" -> OrB(s, t) [] opn = "xor" -> XorB(s, t)
 DoBin(opn, o, xv) ==
   IF Len(xv) # Len(o.v) THEN Raises({"ValueError"}) ELSE OkV(VNew(o.c, BinB(opn, o.v, xv)))
+\* reflected form  x op o : the left operand x is not one of the tracked objects.  If it is a
+\* bitstring the result has its class; a bitarray.bitarray on the left refuses the operation
+\* itself (TypeError from the bitarray package), which is outside bitstring's contract.
+DoRBin(opn, o, x, xv) ==
+  IF x.kind = "bitarray" THEN Unconstrained
+  ELSE IF Len(xv) # Len(o.v) THEN Raises({"ValueError"})
+  ELSE OkV(VNew(IF x.kind \in Classes THEN x.kind ELSE o.c, BinB(opn, xv, o.v)))
 
 DoShift(left, o, n) ==
   IF n < 0 \/ Len(o.v) = 0 THEN Raises({"ValueError"})
@@ -269,7 +277,10 @@ RangeSeq(a, b, c) ==
              ELSE (IF a > b THEN (a - b - 1) \div (-c) + 1 ELSE 0) IN
   [i \in 1..cnt |-> a + (i - 1) * c]
 
-DoSetAll(t, o, v) == Mutated(t, o, [i \in 1..Len(o.v) |-> v], o.p)
+\* set(v) on an empty bitstring: nothing to set; the shipped code refuses with ValueError, which
+\* the properties do not exclude
+DoSetAll(t, o, v) ==
+  IF Len(o.v) = 0 THEN MayRaise(Mutated(t, o, o.v, o.p)) ELSE Mutated(t, o, [i \in 1..Len(o.v) |-> v], o.p)
 DoInvertAll(t, o) == Mutated(t, o, NotB(o.v), o.p)
 
 DoByteSwap(t, o, lsb0, sizes, a, b, repeat) ==
@@ -437,10 +448,14 @@ DoReadTo(t, o, opts, pat, ba3) ==
 
 DoEq(o, xv, negate) == OkV(VBool((o.v = xv) # negate))
 DoEqPy(negate) == OkV(VBool(negate))
-DoHashEq(o, xv) == IF o.v = xv THEN OkV(VBool(TRUE))
+\* equal immutable bitstrings hash equal (unequal ones may collide); the mutable classes are unhashable
+DoHashEq(o, xv) == IF IsMutable(o.c) THEN Raises({"TypeError"})
+                   ELSE IF o.v = xv THEN OkV(VBool(TRUE))
                    ELSE [OkV(VBool(FALSE)) EXCEPT !.free = {"vals"}]
 DoHashable(o) == OkV(VBool(~IsMutable(o.c)))
-DoInSet(o, xv) == IF o.v = xv THEN OkV(VBool(TRUE)) ELSE OkV(VBool(FALSE))
+\* x in {t} and {t: 1}[x] == 1
+DoInSet(o, xv) == IF IsMutable(o.c) THEN Raises({"TypeError"})
+                  ELSE IF o.v = xv THEN OkV(VBool(TRUE)) ELSE OkV(VBool(FALSE))
 
 \* copy: a new object for the mutable classes; the immutable ones may return
 \* themselves.  copy.copy of a stream starts at position 0.
@@ -510,16 +525,27 @@ CoreStep(objs, opts, call) ==
     [] op = "len" -> DoLen(o)
     [] op = "lenprop" -> DoLen(o)
     [] op = "bool" -> DoBool(o)
-    [] op = "iter" -> DoIter(o)
+    [] op = "iter" -> DoIter(o, lsb0)
     [] op = "getitem" -> DoGetItem(o, lsb0, i1)
     [] op = "getslice" -> DoGetSlice(o, lsb0, i1, i2, i3)
     [] op = "add" -> DoAdd(o, xv1)
     [] op = "radd" -> DoRAdd(o, x1, xv1)
     [] op \in {"mul", "rmul"} -> DoMul(o, i1)
     [] op = "inv" -> DoInv(o)
-    [] op \in {"and", "rand"} -> DoBin("and", o, xv1)
-    [] op \in {"or", "ror_"} -> DoBin("or", o, xv1)
-    [] op \in {"xor", "rxor"} -> DoBin("xor", o, xv1)
+    [] op = "and" -> DoBin("and", o, xv1)
+    [] op = "or" -> DoBin("or", o, xv1)
+    [] op = "xor" -> DoBin("xor", o, xv1)
+    [] op = "rand" -> DoRBin("and", o, x1, xv1)
+    [] op = "ror_" -> DoRBin("or", o, x1, xv1)
+    [] op = "rxor" -> DoRBin("xor", o, x1, xv1)
+    \* augmented assignment on an immutable class is ordinary Python: t = t op x
+    [] op = "iadd" /\ ~IsMutable(o.c) -> DoAdd(o, xv1)
+    [] op = "imul" /\ ~IsMutable(o.c) -> DoMul(o, i1)
+    [] op = "ilshift" /\ ~IsMutable(o.c) -> DoShift(TRUE, o, i1)
+    [] op = "irshift" /\ ~IsMutable(o.c) -> DoShift(FALSE, o, i1)
+    [] op = "iand" /\ ~IsMutable(o.c) -> DoBin("and", o, xv1)
+    [] op = "ior" /\ ~IsMutable(o.c) -> DoBin("or", o, xv1)
+    [] op = "ixor" /\ ~IsMutable(o.c) -> DoBin("xor", o, xv1)
     [] op = "lshift" -> DoShift(TRUE, o, i1)
     [] op = "rshift" -> DoShift(FALSE, o, i1)
     [] op \in MutatorOps /\ ~IsMutable(o.c) -> Raises({"*", "Internal"})
